@@ -5,6 +5,7 @@ import Ts.Props.C05
 import Ts.Props.C06
 import Ts.Lemmas.C05He
 import Ts.Props.C02Trace
+import Ts.Lemmas.C05Hf
 /-!
 # C05 over whole histories — routing follows the latest valid PAT and PMTs
 
@@ -36,6 +37,13 @@ theorem over whole histories of PAT / PMT versions, elementary-stream packets an
   with TAGS (`DroppedClausePmt'`, false: F7); callbacks of the next packet
   (`next_packet_callbacks_tagged`, `latest_pmt_stream_callbacks_tagged`); elementary-stream packets
   interleaved with the packets of one table (`RealisesI`, `routing_refines_interleaved`).
+* Additions after the second review (last part of the file): the PAT clause under collision-freedom of
+  the tables in force (`routed_by_current_pat`, `routed_by_latest_pat'`, `handled_by_latest_pat'`,
+  `handled_by_latest_pat_nit'`); SCOPE BOUNDARIES (DESIGN 8.1b, legal inputs outside the spec's vocabulary,
+  not findings): two programs sharing one PMT PID (`shared_pmt_pid_same_version_unrouted`,
+  `shared_pmt_pid_alternating`), next tables (`next_table_applied_at_once`), multi-section tables
+  (`second_section_deduplicated`); the positive clause read per PROGRAM under `DistinctPmtPidsAll`
+  (`routed_by_latest_pmt_of_program`, `handled_by_latest_pmt_of_program`).
 -/
 namespace Ts.Props.C05History
 open Ts Ts.Tables Ts.App Ts.Demux Ts.Spec Ts.Spec.TableSpec Ts.Spec.Routing Ts.Spec.RoutingHistory
@@ -1128,5 +1136,521 @@ theorem inter_checked :
       | .ok (t, c) => slotOf (t.get 0x101) == .pes 3 && slotOf (t.get 0x110) == .pmt 0x110 2 [0x111] &&
           decide (esTags c = [(3, 0), (3, 1)]) && decide ((constructs c).length = 6)
       | .panic _ => false) = true := by decide +kernel
+
+open Ts.Lemmas.C05Hf
+
+/-! ## Additions after the second review
+
+* (PAT clause) `routed_by_current_pat`, `routed_by_latest_pat'`, `handled_by_latest_pat'`,
+  `handled_by_latest_pat_nit'`: `routed_by_latest_pat` with the global `CollisionFree` replaced by
+  `CollisionFreeNowAll`, and lifted to the dispatcher's table; instantiations of the old and the new
+  theorem.
+* (scope boundary, DESIGN 8.1b) `shared_pmt_pid_same_version_unrouted`, `shared_pmt_pid_alternating`:
+  two PAT entries naming the SAME PMT PID.  `next_table_applied_at_once`, `second_section_deduplicated`:
+  `current_next_indicator = 0` and multi-section tables.  None of these is a known finding; they are
+  LEGAL inputs outside the vocabulary of `Spec/RoutingHistory.lean`.
+* (per-program reading) `DistinctPmtPids`, `pmtPidOf`; `routed_by_latest_pmt_of_program`,
+  `handled_by_latest_pmt_of_program`.
+-/
+
+/-! ### the PAT clause under collision-freedom of the tables IN FORCE only -/
+
+/-- the most recent PAT is the PAT in force -/
+theorem current_pat_after (pre post : List Event) (ver : Nat) (es : List PatEntry)
+    (hlast : ∀ ev ∈ post, ∀ v es', ev ≠ .patApplied v es') :
+    (currentOf (pre ++ .patApplied ver es :: post)).pat = es := cur_pat_after pre post ver es hlast
+
+/-- **The PAT clause for the tables in force.**  `evs`: a well-formed history such that after EVERY
+prefix the tables in force are collision-free (`CollisionFreeNowAll`).  A PID `q` listed by the PAT in
+force is routed by the request of its (last) entry: `Pmt(q, program_number)` for a program entry,
+`Nit(q)` for the network entry. -/
+theorem routed_by_current_pat (evs : List Event) (hwf : WF initRoute evs) (hcf : CollisionFreeNowAll evs)
+    (q : Nat) (req : Req) (hq : lastFor (patRequests (currentOf evs).pat) q = some req) :
+    (∃ tag, (run initRoute evs).slots q = some (req, tag)) ∧
+    routeOf (run initRoute evs) q = some (kindOf req) ∧
+    ∃ e ∈ (currentOf evs).pat, e.pid = q ∧ req = patRequest e := by
+  obtain ⟨tag, h⟩ := Ts.Lemmas.C05Hf.routed_by_current_pat evs hwf hcf q req hq
+  exact ⟨⟨tag, h⟩, by unfold routeOf; rw [h]; rfl, entry_of_lastFor hq⟩
+
+/-- `routed_by_latest_pat` with the global `CollisionFree` replaced by `CollisionFreeNowAll`; extra
+hypothesis compared with `routed_by_latest_pat`: the history is well-formed (`hwf`). -/
+theorem routed_by_latest_pat' (pre post : List Event) (ver : Nat) (es : List PatEntry) (q : Nat) (req : Req)
+    (hwf : WF initRoute (pre ++ .patApplied ver es :: post))
+    (hcf : CollisionFreeNowAll (pre ++ .patApplied ver es :: post))
+    (hlast : ∀ ev ∈ post, ∀ v es', ev ≠ .patApplied v es')
+    (hq : lastFor (patRequests es) q = some req) :
+    (∃ tag, (run initRoute (pre ++ .patApplied ver es :: post)).slots q = some (req, tag)) ∧
+    routeOf (run initRoute (pre ++ .patApplied ver es :: post)) q = some (kindOf req) ∧
+    ∃ e ∈ es, e.pid = q ∧ req = patRequest e := by
+  have hcur := current_pat_after pre post ver es hlast
+  obtain ⟨h1, h2, -⟩ := routed_by_current_pat _ hwf hcf q req (by rw [hcur]; exact hq)
+  exact ⟨h1, h2, entry_of_lastFor hq⟩
+
+/-- the old theorem's conclusion as a corollary (for well-formed histories) -/
+example (pre post : List Event) (ver : Nat) (es : List PatEntry) (q : Nat) (req : Req)
+    (hwf : WF initRoute (pre ++ .patApplied ver es :: post))
+    (hcf : CollisionFree (pre ++ .patApplied ver es :: post))
+    (hlast : ∀ ev ∈ post, ∀ v es', ev ≠ .patApplied v es')
+    (hq : lastFor (patRequests es) q = some req) :
+    ∃ tag, (run initRoute (pre ++ .patApplied ver es :: post)).slots q = some (req, tag) :=
+  (routed_by_latest_pat' pre post ver es q req hwf (collisionFreeNowAll_of_collisionFree _ hcf) hlast hq).1
+
+/-- **"PMT PIDs are requested as program-map PIDs with the announced program number", end to end, for
+the tables in force.**  After any realised, well-formed history with `CollisionFreeNowAll` whose most
+recent PAT is `es`: if the last entry of `es` naming PID `q` is the entry of program `n`
+(`hq`), slot `q` of the dispatcher's table holds a PMT filter with parameters `(q, n)`, not
+reassembling, and the `construct` event with the request `Pmt(q, n)` is in the trace.  Its version memory
+and registered PIDs are those of the abstract instance; if no PMT has been applied on `q` since the
+PAT, it is fresh: no version, nothing registered. -/
+theorem handled_by_latest_pat' (cfg : Cfg) (hscript : cfg.script = []) (pre post : List Event)
+    (ver : Nat) (es : List PatEntry) (pks : List Pk) (q n : Nat)
+    (hwf : WF initRoute (pre ++ .patApplied ver es :: post))
+    (hcf : CollisionFreeNowAll (pre ++ .patApplied ver es :: post))
+    (hre : Realises initRoute (pre ++ .patApplied ver es :: post) pks)
+    (hlast : ∀ ev ∈ post, ∀ v es', ev ≠ .patApplied v es')
+    (hq : lastFor (patRequests es) q = some (.pmt q n)) :
+    ∃ t c tag s reg, pushModel App.sem (App.init cfg) pks = .ok (t, c) ∧
+      Ev.construct (.pmt q n) tag ∈ c.trace ∧
+      t.get q = some (.pmt q n s reg) ∧ s.remaining = none ∧
+      reg = ((run initRoute (pre ++ .patApplied ver es :: post)).pmt q).streams.map StreamInfo.pid ∧
+      s.lastVersion = ((run initRoute (pre ++ .patApplied ver es :: post)).pmt q).ver ∧
+      ((∀ ev ∈ post, ∀ v b, ev ≠ .pmtApplied q v b) → reg = [] ∧ s.lastVersion = none) := by
+  obtain ⟨t, c, -, h2, hslots, htags, -, -, -⟩ := routing_refines cfg hscript _ pks hwf hre
+  obtain ⟨⟨tag, hs⟩, -, -⟩ := routed_by_latest_pat' pre post ver es q _ hwf hcf hlast hq
+  have hrel := hslots q
+  rw [hs] at hrel
+  obtain ⟨s, h3, h4, h5⟩ := hrel
+  refine ⟨t, c, tag, s, _, h2, (htags q _ tag hs).2.1, h3, h5, rfl, h4, ?_⟩
+  intro hno
+  have := fresh_after_pat (run initRoute pre) post ver es q q n hlast hno hq
+  rw [← run_append] at this
+  rw [h4, this.1, this.2]
+  exact ⟨rfl, rfl⟩
+
+/-- **"… and network entries as NIT PIDs", end to end.**  Same hypotheses; if the last entry of the most
+recent PAT naming `q` is the network entry, slot `q` holds the recorder the application answered the
+request `Nit(q)` with. -/
+theorem handled_by_latest_pat_nit' (cfg : Cfg) (hscript : cfg.script = []) (pre post : List Event)
+    (ver : Nat) (es : List PatEntry) (pks : List Pk) (q : Nat)
+    (hwf : WF initRoute (pre ++ .patApplied ver es :: post))
+    (hcf : CollisionFreeNowAll (pre ++ .patApplied ver es :: post))
+    (hre : Realises initRoute (pre ++ .patApplied ver es :: post) pks)
+    (hlast : ∀ ev ∈ post, ∀ v es', ev ≠ .patApplied v es')
+    (hq : lastFor (patRequests es) q = some (.nit q)) :
+    ∃ t c tag, pushModel App.sem (App.init cfg) pks = .ok (t, c) ∧
+      Ev.construct (.nit q) tag ∈ c.trace ∧ t.get q = some (.recorder tag) := by
+  obtain ⟨t, c, -, h2, hslots, htags, -, -, -⟩ := routing_refines cfg hscript _ pks hwf hre
+  obtain ⟨⟨tag, hs⟩, -, -⟩ := routed_by_latest_pat' pre post ver es q _ hwf hcf hlast hq
+  have hrel := hslots q
+  rw [hs] at hrel
+  exact ⟨t, c, tag, h2, (htags q _ tag hs).2.1, hrel⟩
+
+/-! #### instantiations (non-vacuity) of the old and the new PAT clause -/
+
+/-- `routed_by_latest_pat` (the OLD theorem, global `CollisionFree`) on the F7 history: the most recent
+PAT is v1 {1 → 0x100, 2 → 0x110}, followed by PMT v1 and a packet; 0x110 is routed by `Pmt(0x110, 2)` -/
+example : routeOf (run initRoute f7Hist) 0x110 = some (.pmt 0x110 2) :=
+  (routed_by_latest_pat [.patApplied 0 [.program 1 0x100], .pmtApplied 0x100 0 body0]
+    [.pmtApplied 0x100 1 body1, .esPacket 0x102] 1 [.program 1 0x100, .program 2 0x110] 0x110 (.pmt 0x110 2)
+    f7_cf
+    (by
+      intro ev hm v es e
+      simp only [List.mem_cons, List.mem_nil_iff, or_false] at hm
+      rcases hm with rfl | rfl <;> cases e)
+    (by decide +kernel)).2.1
+
+/-- `routed_by_latest_pat'` on `movedHist`, which is NOT `CollisionFree` (PID 0x102 moves between
+programs) but `CollisionFreeNowAll`: 0x110 is routed by `Pmt(0x110, 2)` -/
+example : routeOf (run initRoute movedHist) 0x110 = some (.pmt 0x110 2) :=
+  (routed_by_latest_pat' [] [.pmtApplied 0x100 0 body0, .pmtApplied 0x100 1 body1, .pmtApplied 0x110 0 bodyM,
+      .esPacket 0x102] 0 pat2 0x110 (.pmt 0x110 2) moved_wf moved_cfn
+    (by
+      intro ev hm v es e
+      simp only [List.mem_cons, List.mem_nil_iff, or_false] at hm
+      rcases hm with rfl | rfl | rfl | rfl <;> cases e)
+    (by decide +kernel)).2.1
+
+/-- `handled_by_latest_pat'` on `movedHist` / `movedBytes` (real packets): slot 0x110 holds the PMT
+filter of program 2, built for the request `Pmt(0x110, 2)`; slot 0x100 that of program 1 -/
+theorem moved_pat_handled :
+    ∃ t c tag s reg, runApp {} [movedBytes] = .ok (t, c) ∧ Ev.construct (.pmt 0x110 2) tag ∈ c.trace ∧
+      t.get 0x110 = some (.pmt 0x110 2 s reg) ∧ s.remaining = none := by
+  obtain ⟨t, c, tag, s, reg, h1, h2, h3, h4, -⟩ := handled_by_latest_pat' {} rfl []
+    [.pmtApplied 0x100 0 body0, .pmtApplied 0x100 1 body1, .pmtApplied 0x110 0 bodyM, .esPacket 0x102]
+    0 pat2 movedPks 0x110 2 moved_wf moved_cfn moved_realises
+    (by
+      intro ev hm v es e
+      simp only [List.mem_cons, List.mem_nil_iff, or_false] at hm
+      rcases hm with rfl | rfl | rfl | rfl <;> cases e)
+    (by decide +kernel)
+  exact ⟨t, c, tag, s, reg, by rw [runApp_one {} movedBytes movedPks moved_frame]; exact h1, h2, h3, h4⟩
+
+/-- the "fresh" clause of `handled_by_latest_pat'`: right after PAT {1 → 0x100, 2 → 0x110} alone (one real
+packet), both PMT filters are fresh -/
+example : ∃ t c tag s, pushModel App.sem (App.init {}) [⟨pat2V0, 0, 0, false, false⟩] = .ok (t, c) ∧
+    Ev.construct (.pmt 0x110 2) tag ∈ c.trace ∧ t.get 0x110 = some (.pmt 0x110 2 s []) ∧
+    s.lastVersion = none ∧ s.remaining = none := by
+  obtain ⟨t, c, tag, s, reg, h1, h2, h3, h4, -, -, h7⟩ := handled_by_latest_pat' {} rfl [] [] 0 pat2
+    [⟨pat2V0, 0, 0, false, false⟩] 0x110 2 (by decide +kernel) (by decide +kernel)
+    (Realises.cons (re_pat2 _ 0) (Realises.nil _)) (by intro ev hm; cases hm) (by decide +kernel)
+  obtain ⟨rfl, h8⟩ := h7 (by intro ev hm; cases hm)
+  exact ⟨t, c, tag, s, h1, h2, h3, h8, h4⟩
+
+/-- `handled_by_latest_pat_nit'` on a real packet carrying PAT {network → 0x10, 1 → 0x100}: slot 0x10
+holds the recorder built for the request `Nit(0x10)`; and `handled_by_latest_pat'` on the same packet:
+slot 0x100 holds the fresh PMT filter of program 1 -/
+example : (∃ t c tag, pushModel App.sem (App.init {}) [⟨psiPkt 0x40 0x00 0x10 secPatNit, 0, 0, false, false⟩]
+      = .ok (t, c) ∧ Ev.construct (.nit 0x10) tag ∈ c.trace ∧ t.get 0x10 = some (.recorder tag)) ∧
+    (∃ t c tag s, pushModel App.sem (App.init {}) [⟨psiPkt 0x40 0x00 0x10 secPatNit, 0, 0, false, false⟩]
+      = .ok (t, c) ∧ Ev.construct (.pmt 0x100 1) tag ∈ c.trace ∧ t.get 0x100 = some (.pmt 0x100 1 s [])) := by
+  have hre : Realises initRoute ([] ++ Event.patApplied 0 patNit :: []) _ :=
+    Realises.cons (re_patNit _) (Realises.nil _)
+  refine ⟨handled_by_latest_pat_nit' {} rfl [] [] 0 patNit _ 0x10 nit_wf.1 nit_wf.2 hre
+    (by intro ev hm; cases hm) (by decide +kernel), ?_⟩
+  obtain ⟨t, c, tag, s, reg, h1, h2, h3, -, -, -, h7⟩ := handled_by_latest_pat' {} rfl [] [] 0 patNit _
+    0x100 1 nit_wf.1 nit_wf.2 hre (by intro ev hm; cases hm) (by decide +kernel)
+  obtain ⟨rfl, -⟩ := h7 (by intro ev hm; cases hm)
+  exact ⟨t, c, tag, s, h1, h2, h3⟩
+
+/-! ### SCOPE BOUNDARY (DESIGN 8.1b): two programs whose PAT entries name the SAME PMT PID -/
+
+/-- `DistinctPmtPidsAll`, spelled out -/
+theorem distinctPmtPidsAll_iff (evs : List Event) :
+    DistinctPmtPidsAll evs ↔ ∀ v es, Event.patApplied v es ∈ evs → DistinctPmtPids es :=
+  distinctAll_iff evs
+
+/-- `DistinctPmtPids`, spelled out: two program entries with different program numbers name different
+PIDs, and a program entry and a network entry name different PIDs -/
+theorem distinctPmtPids_iff (es : List PatEntry) :
+    DistinctPmtPids es ↔
+      ((∀ n p n' p', PatEntry.program n p ∈ es → PatEntry.program n' p' ∈ es → n ≠ n' → p ≠ p') ∧
+       (∀ n p p', PatEntry.program n p ∈ es → PatEntry.network p' ∈ es → p ≠ p')) := by
+  constructor
+  · intro h
+    refine ⟨fun n p n' p' h1 h2 hn hp => ?_, fun n p p' h1 h2 hp => ?_⟩
+    · have := h _ h1 _ h2 hp
+      simp only [progNum, Option.some.injEq] at this
+      exact hn this
+    · have := h _ h1 _ h2 hp
+      cases this
+  · rintro ⟨h1, h2⟩ e he e' he' hp
+    cases e with
+    | program n p =>
+      cases e' with
+      | program n' p' =>
+        apply Classical.byContradiction
+        intro hne
+        exact h1 n p n' p' he he' (fun e => hne (by rw [e]; rfl)) hp
+      | network p' => exact absurd hp (h2 n p p' he he')
+    | network p =>
+      cases e' with
+      | program n' p' => exact absurd hp.symm (h2 n' p' p he' he)
+      | network p' => rfl
+
+/-- `pmtPidOf es n = some p`: the PAT lists program `n` with PMT PID `p` (and `p` is one of its
+program-map PIDs) -/
+theorem pmtPidOf_some (es : List PatEntry) (n p : Nat) (h : pmtPidOf es n = some p) :
+    PatEntry.program n p ∈ es ∧ p ∈ progPids es :=
+  ⟨pmtPidOf_mem h, progPids_of_program (pmtPidOf_mem h)⟩
+
+/-- **Scope boundary (NOT a known finding; DESIGN 8.1b): a shared PMT PID, equal versions.**
+`sharedSameVer` of `/tmp/pr/rev2d_cases.txt`: PAT {1 → 0x100, 2 → 0x100}; on 0x100 the PMT of program 1
+(`secPmtA`, version 0, stream 0x101) and the PMT of program 2 (`secPmtB0`, `table_id_extension` 2, version 0,
+stream 0x201); elementary packets on 0x101 and 0x201.  This is LEGAL MPEG-2 TS (nothing forbids two PAT
+entries naming one PID) but OUTSIDE the spec's vocabulary: `Event.pmtApplied` carries no program number,
+so the spec reads "the PMT of a program" as "the PMT applied on that program's PMT PID".
+
+Spec level: the history `hSame` is `WF`, `CollisionFree`, `CollisionFreeNowAll`, NOT `DistinctPmtPidsAll`,
+and is REALISED by the exact bytes — program 2's PMT being a `repetition` in the sense of C10.  The PAT in
+force lists program 2 with PMT PID 0x100; the only PMT in force on 0x100 is program 1's.  The theorems
+`routed_by_latest_pmt` / `routed_by_latest_pmt'` HOLD on it in the spec's reading "PMT of the PMT PID
+0x100" (0x101 is routed by `Stream(0x100, 0x1b, 0x101)`), while the property's reading "PMT of program 2"
+FAILS: 0x201, the stream of program 2's PMT, is routed by `ByPid(0x201)`.
+
+Model level (kernel evaluation of the whole model on the exact bytes; identical to the Rust output
+`… C:stream:256:27:257…>3 … C:bypid:513>4 P:4@752`): no stream request for 0x201 is ever made; the packets
+on 0x201 are recorded by the `ByPid(0x201)` recorder (tag 4) at offsets 752 and 1128; the PMT filter on
+0x100 is the one requested for program 2 and has registered program 1's stream. -/
+theorem shared_pmt_pid_same_version_unrouted :
+    (WF initRoute hSame ∧ CollisionFree hSame ∧ CollisionFreeNowAll hSame ∧ ¬ DistinctPmtPidsAll hSame ∧
+      Demux.frame sameBytes 0 = .ok samePks ∧ Realises initRoute hSame samePks ∧
+      (currentOf hSame).pat = patShared ∧
+      pmtPidOf patShared 1 = some 0x100 ∧ pmtPidOf patShared 2 = some 0x100 ∧
+      (currentOf hSame).pmt = [(0x100, bodyA)] ∧
+      byteD secPmtB0 4 = 2 ∧ sectionBody secPmtB0 = bodyB ∧ streamsOf bodyB = [⟨0x1b, 0x201, []⟩] ∧
+      routeOf (run initRoute hSame) 0x100 = some (.pmt 0x100 2) ∧
+      routeOf (run initRoute hSame) 0x101 = some (.stream 0x100 0x1b 0x101) ∧
+      routeOf (run initRoute hSame) 0x201 = some (.byPid 0x201)) ∧
+    (∃ t c, runApp {} [sameBytes] = .ok (t, c) ∧
+      constructs c = [(.byPid 0, 0), (.pmt 0x100 1, 1), (.pmt 0x100 2, 2),
+        (.stream 0x100 0x1b 0x101 0x101 [] [], 3), (.byPid 0x201, 4)] ∧
+      pkts c = [(4, 752), (4, 1128)] ∧
+      (∃ s, t.get 0x100 = some (.pmt 0x100 2 s [0x101])) ∧
+      (∃ f, t.get 0x101 = some (.pes 3 f)) ∧ t.get 0x201 = some (.recorder 4)) := by
+  refine ⟨⟨same_wf, same_cf.1, same_cf.2.1, same_cf.2.2, same_frame, same_realises, by decide +kernel,
+    by decide +kernel, by decide +kernel, by decide +kernel, by decide +kernel, by decide +kernel,
+    streams_bodyB, ?_, ?_, ?_⟩, ?_⟩
+  · unfold routeOf; rw [same_slots.1]; rfl
+  · unfold routeOf; rw [same_slots.2.1]; rfl
+  · unfold routeOf; rw [same_slots.2.2.1]; rfl
+  · obtain ⟨t, c, hr, hc, hp, -, hs⟩ := observeAt_some _ _ _ same_run
+    simp only [List.map_cons, List.map_nil, List.cons.injEq, and_true] at hs
+    obtain ⟨-, h100, h101, h201⟩ := hs
+    exact ⟨t, c, hr, hc, hp, slot_pmt _ _ _ _ h100, slot_pes _ _ h101, slot_recorder _ _ h201⟩
+
+/-- the positive-clause theorem `routed_by_latest_pmt'` applies to `hSame` (spec's reading: the PMT of
+the PMT PID 0x100) … -/
+example : routeOf (run initRoute hSame) 0x101 = some (.stream 0x100 0x1b 0x101) :=
+  (routed_by_latest_pmt' [.patApplied 0 patShared]
+    [.repetition 0x100, .esPacket 0x101, .esPacket 0x201, .esPacket 0x101, .esPacket 0x201]
+    0x100 0 bodyA 0x101 (.stream 0x100 0x1b 0x101 0x101 [] []) same_wf same_cf.2.1
+    (by
+      intro ev hm v b e
+      simp only [List.mem_cons, List.mem_nil_iff, or_false] at hm
+      rcases hm with rfl | rfl | rfl | rfl | rfl <;> cases e)
+    (by
+      intro ev hm v es e
+      simp only [List.mem_cons, List.mem_nil_iff, or_false] at hm
+      rcases hm with rfl | rfl | rfl | rfl | rfl <;> cases e)
+    (by decide +kernel)).2.1
+
+/-- … and `routing_refines` on the realised history gives the same table as kernel evaluation of the
+whole model: the model AGREES with the spec here; it is the spec's vocabulary that is too coarse -/
+theorem shared_same_refined :
+    ∃ t c, runApp {} [sameBytes] = .ok (t, c) ∧ t.get 0x201 = some (.recorder 4) ∧
+      Ev.construct (.byPid 0x201) 4 ∈ c.trace ∧ (∃ s, t.get 0x100 = some (.pmt 0x100 2 s [0x101])) := by
+  obtain ⟨t, c, -, h2, hslots, htags, -, -, -⟩ :=
+    routing_refines {} rfl hSame samePks same_wf same_realises
+  obtain ⟨s100, -, s201, m100⟩ := same_slots
+  refine ⟨t, c, by rw [runApp_one {} sameBytes samePks same_frame]; exact h2, ?_, ?_, ?_⟩
+  · have := hslots 0x201; rw [s201] at this; exact this
+  · exact (htags 0x201 _ 4 s201).2.1
+  · have := hslots 0x100; rw [s100] at this
+    obtain ⟨s, h1, -⟩ := this
+    rw [m100] at h1
+    exact ⟨s, h1⟩
+
+/-- **Scope boundary (NOT a known finding; DESIGN 8.1b): a shared PMT PID, different versions.**
+`sharedDiffVer` of `/tmp/pr/rev2d_cases.txt`: as above with program 2's PMT at version 1, both PMTs
+transmitted twice.  Legal input, outside the spec's vocabulary (see
+`shared_pmt_pid_same_version_unrouted`).
+
+Spec level: the history `hDiff` — in which the two programs' PMTs are versions 0, 1, 0, 1 of "the" PMT on
+0x100 — is `WF`, `CollisionFree`, `CollisionFreeNowAll`, NOT `DistinctPmtPidsAll`, and is realised by the
+exact bytes.  Every application un-routes the OTHER program's stream: after the 3rd event 0x101 is
+un-routed, after the 6th 0x201, after the 9th 0x101 again.  `routed_by_latest_pmt'` holds in the spec's
+reading (the PIDs of the most recent PMT on 0x100 are routed); the property's reading fails for whichever
+program's PMT came first: its PMT is the most recent PMT of that program, it is listed by the most recent
+PAT, and its stream is un-routed (then offered as `ByPid`).
+
+Model level (kernel evaluation on the exact bytes): the `construct` requests alternate between stream
+requests for 0x101 / 0x201 and `ByPid` requests for the PID just removed; three elementary packets are
+recorded by `ByPid` recorders (tags 5, 7, 9); at the end 0x101 holds a recorder, 0x201 a PES filter. -/
+theorem shared_pmt_pid_alternating :
+    (WF initRoute hDiff ∧ CollisionFree hDiff ∧ CollisionFreeNowAll hDiff ∧ ¬ DistinctPmtPidsAll hDiff ∧
+      Demux.frame diffBytes 0 = .ok diffPks ∧ Realises initRoute hDiff diffPks ∧
+      hDiff.take 3 = [.patApplied 0 patShared, .pmtApplied 0x100 0 bodyA, .pmtApplied 0x100 1 bodyB] ∧
+      routeOf (run initRoute (hDiff.take 3)) 0x101 = none ∧
+      routeOf (run initRoute (hDiff.take 3)) 0x201 = some (.stream 0x100 0x1b 0x201) ∧
+      routeOf (run initRoute (hDiff.take 6)) 0x101 = some (.stream 0x100 0x1b 0x101) ∧
+      routeOf (run initRoute (hDiff.take 6)) 0x201 = none ∧
+      routeOf (run initRoute (hDiff.take 9)) 0x101 = none ∧
+      routeOf (run initRoute (hDiff.take 9)) 0x201 = some (.stream 0x100 0x1b 0x201) ∧
+      routeOf (run initRoute hDiff) 0x101 = some (.byPid 0x101) ∧
+      routeOf (run initRoute hDiff) 0x201 = some (.stream 0x100 0x1b 0x201)) ∧
+    (∃ t c, runApp {} [diffBytes] = .ok (t, c) ∧
+      constructs c = [(.byPid 0, 0), (.pmt 0x100 1, 1), (.pmt 0x100 2, 2),
+        (.stream 0x100 0x1b 0x101 0x101 [] [], 3), (.stream 0x100 0x1b 0x201 0x201 [] [], 4),
+        (.byPid 0x101, 5), (.stream 0x100 0x1b 0x101 0x101 [] [], 6), (.byPid 0x201, 7),
+        (.stream 0x100 0x1b 0x201 0x201 [] [], 8), (.byPid 0x101, 9)] ∧
+      pkts c = [(5, 564), (7, 1316), (9, 1692)] ∧
+      (∃ s, t.get 0x100 = some (.pmt 0x100 2 s [0x201])) ∧
+      t.get 0x101 = some (.recorder 9) ∧ (∃ f, t.get 0x201 = some (.pes 8 f))) := by
+  obtain ⟨a1, a2, a3, a4, a5, a6, a7, a8⟩ := diff_slots
+  refine ⟨⟨diff_wf, diff_cf.1, diff_cf.2.1, diff_cf.2.2, diff_frame, diff_realises, rfl,
+    ?_, ?_, ?_, ?_, ?_, ?_, ?_, ?_⟩, ?_⟩
+  · unfold routeOf; rw [a1]; rfl
+  · unfold routeOf; rw [a2]; rfl
+  · unfold routeOf; rw [a3]; rfl
+  · unfold routeOf; rw [a4]; rfl
+  · unfold routeOf; rw [a5]; rfl
+  · unfold routeOf; rw [a6]; rfl
+  · unfold routeOf; rw [a7]; rfl
+  · unfold routeOf; rw [a8]; rfl
+  · obtain ⟨t, c, hr, hc, hp, -, hs⟩ := observeAt_some _ _ _ diff_run
+    simp only [List.map_cons, List.map_nil, List.cons.injEq, and_true] at hs
+    obtain ⟨-, h100, h101, h201⟩ := hs
+    exact ⟨t, c, hr, hc, hp, slot_pmt _ _ _ _ h100, slot_recorder _ _ h101, slot_pes _ _ h201⟩
+
+/-! ### the positive clause read per PROGRAM, under `DistinctPmtPidsAll` -/
+
+/-- **The positive clause for "the most recent PMT of a PROGRAM".**  History
+`pre ++ PMT(p, ver, body) :: post`, well-formed, `CollisionFreeNowAll`, and — the scope hypothesis that
+makes the spec's reading the property's reading — `DistinctPmtPidsAll`: no applied PAT lets two programs
+(or a program and the network entry) share a PID.  Program `n`:
+* `hprog`: the PAT in force when the PMT was applied announces `p` as the PMT PID of program `n`;
+* `hkeep`: so does every PAT applied afterwards (the program is never dropped or moved; this implies the
+  hypothesis `hkeep` of `routed_by_latest_pmt'`);
+* `hlast`: no PMT is applied on `p` afterwards — `body` is the most recent PMT of program `n`.
+Then
+1. the most recent PAT announces `p` for program `n`, and EVERY entry of it naming `p` is the entry of
+   program `n` (so a PMT applied on `p` is a PMT of program `n` and of no other program);
+2. the PMT was consumed by a handler the application built from the request `Pmt(p, n)`, and `p` is
+   still routed by a request `Pmt(p, n)`;
+3. every PID `q` listed by `body` is routed by the stream request of its (last) entry, naming `p`, the
+   entry's stream type and `q`.
+(3 is `routed_by_latest_pmt'`; `DistinctPmtPidsAll` is what 1 and 2 need.  Without it 3 still holds but
+says nothing about programs: `shared_pmt_pid_same_version_unrouted`.) -/
+theorem routed_by_latest_pmt_of_program (pre post : List Event) (n p ver : Nat) (body : Bytes)
+    (q : Nat) (req : Req)
+    (hwf : WF initRoute (pre ++ .pmtApplied p ver body :: post))
+    (hcf : CollisionFreeNowAll (pre ++ .pmtApplied p ver body :: post))
+    (hd : DistinctPmtPidsAll (pre ++ .pmtApplied p ver body :: post))
+    (hprog : pmtPidOf (currentOf pre).pat n = some p)
+    (hlast : ∀ ev ∈ post, ∀ v b, ev ≠ .pmtApplied p v b)
+    (hkeep : ∀ ev ∈ post, ∀ v es, ev = .patApplied v es → pmtPidOf es n = some p)
+    (hq : lastFor (pmtReqs p body) q = some req) :
+    (pmtPidOf (currentOf (pre ++ .pmtApplied p ver body :: post)).pat n = some p ∧
+      ∀ e ∈ (currentOf (pre ++ .pmtApplied p ver body :: post)).pat, e.pid = p → e = .program n p) ∧
+    ((∃ tag, (run initRoute pre).slots p = some (.pmt p n, tag)) ∧
+      ∃ tag, (run initRoute (pre ++ .pmtApplied p ver body :: post)).slots p = some (.pmt p n, tag)) ∧
+    ((∃ tag, (run initRoute (pre ++ .pmtApplied p ver body :: post)).slots q = some (req, tag)) ∧
+      routeOf (run initRoute (pre ++ .pmtApplied p ver body :: post)) q = some (kindOf req) ∧
+      ∃ s ∈ streamsOf body, s.pid = q ∧
+        req = .stream p s.streamType q (specPcrPid body) s.descBytes (specProgramDescBytes body)) := by
+  have hkeep' : ∀ ev ∈ post, ∀ v es, ev = .patApplied v es → PatEntry.program n p ∈ es :=
+    fun ev hm v es e => pmtPidOf_mem (hkeep ev hm v es e)
+  obtain ⟨hmem, huniq, hslot0⟩ := of_program_aux pre post n p ver body hwf hd (pmtPidOf_mem hprog) hkeep'
+  have hcur : pmtPidOf (currentOf (pre ++ .pmtApplied p ver body :: post)).pat n = some p := by
+    unfold currentOf
+    rw [curFrom_append, curFrom_cons]
+    exact cur_pat_pred (fun es => pmtPidOf es n = some p) post _ hprog hkeep
+  refine ⟨⟨hcur, huniq⟩, ⟨hslot0, pmt_slot_of_program _ hwf hcf hd n p hmem⟩, ?_⟩
+  exact routed_by_latest_pmt' pre post p ver body q req hwf hcf hlast
+    (fun ev hm v es e => progPids_of_program (hkeep' ev hm v es e)) hq
+
+/-- **the first sentence of C05, end to end, per PROGRAM.**  Hypotheses of
+`routed_by_latest_pmt_of_program` (in particular the scope hypothesis `DistinctPmtPidsAll`) for a
+realised history.  Then the real loops succeed and: slot `q` of a PID listed by the most recent PMT of
+program `n` holds a handler built from the request naming `q`, its stream type and the program map `p`
+of program `n` (PES filter iff `is_pes`, else recorder); slot `p` holds a PMT filter with parameters
+`(p, n)` built from the request `Pmt(p, n)`. -/
+theorem handled_by_latest_pmt_of_program (cfg : Cfg) (hscript : cfg.script = []) (pre post : List Event)
+    (n p ver : Nat) (body : Bytes) (pks : List Pk) (q : Nat) (s : StreamInfo)
+    (hwf : WF initRoute (pre ++ .pmtApplied p ver body :: post))
+    (hcf : CollisionFreeNowAll (pre ++ .pmtApplied p ver body :: post))
+    (hd : DistinctPmtPidsAll (pre ++ .pmtApplied p ver body :: post))
+    (hre : Realises initRoute (pre ++ .pmtApplied p ver body :: post) pks)
+    (hprog : pmtPidOf (currentOf pre).pat n = some p)
+    (hlast : ∀ ev ∈ post, ∀ v b, ev ≠ .pmtApplied p v b)
+    (hkeep : ∀ ev ∈ post, ∀ v es, ev = .patApplied v es → pmtPidOf es n = some p)
+    (hq : lastFor (pmtReqs p body) q
+      = some (.stream p s.streamType q (specPcrPid body) s.descBytes (specProgramDescBytes body))) :
+    ∃ t c tag tagp sp reg, pushModel App.sem (App.init cfg) pks = .ok (t, c) ∧
+      Ev.construct (.stream p s.streamType q (specPcrPid body) s.descBytes (specProgramDescBytes body)) tag
+        ∈ c.trace ∧
+      (if isPes s.streamType then ∃ f, t.get q = some (.pes tag f) else t.get q = some (.recorder tag)) ∧
+      Ev.construct (.pmt p n) tagp ∈ c.trace ∧ t.get p = some (.pmt p n sp reg) := by
+  obtain ⟨t, c, -, h2, hslots, htags, -, -, -⟩ := routing_refines cfg hscript _ pks hwf hre
+  obtain ⟨-, ⟨-, tagp, hsp⟩, ⟨tag, hs⟩, -, -⟩ :=
+    routed_by_latest_pmt_of_program pre post n p ver body q _ hwf hcf hd hprog hlast hkeep hq
+  have hrel := hslots q
+  rw [hs] at hrel
+  have hrelp := hslots p
+  rw [hsp] at hrelp
+  obtain ⟨sp, h3, -⟩ := hrelp
+  exact ⟨t, c, tag, tagp, sp, _, h2, (htags q _ tag hs).2.1, hrel, (htags p _ tagp hsp).2.1, h3⟩
+
+/-- non-vacuity: `movedHist` (two programs with DISTINCT PMT PIDs; realised by `movedBytes`) satisfies
+`DistinctPmtPidsAll`, and the hypotheses of the per-program theorems hold for program 2, `p = 0x110` -/
+theorem moved_distinct : DistinctPmtPidsAll movedHist ∧
+    pmtPidOf (currentOf [.patApplied 0 pat2, .pmtApplied 0x100 0 body0, .pmtApplied 0x100 1 body1]).pat 2
+      = some 0x110 := by decide +kernel
+
+/-- `handled_by_latest_pmt_of_program` on `movedHist` / `movedBytes`: program 2's stream 0x102 is handled
+by a PES filter built from `Stream(0x110, 0x0f, 0x102)`, and 0x110 by the PMT filter of program 2 -/
+theorem moved_handled_of_program :
+    ∃ t c tag tagp sp reg, runApp {} [movedBytes] = .ok (t, c) ∧
+      Ev.construct (.stream 0x110 0x0f 0x102 0x102 [] []) tag ∈ c.trace ∧
+      (∃ f, t.get 0x102 = some (.pes tag f)) ∧
+      Ev.construct (.pmt 0x110 2) tagp ∈ c.trace ∧ t.get 0x110 = some (.pmt 0x110 2 sp reg) := by
+  obtain ⟨t, c, tag, tagp, sp, reg, h1, h2, h3, h4, h5⟩ := handled_by_latest_pmt_of_program {} rfl
+    [.patApplied 0 pat2, .pmtApplied 0x100 0 body0, .pmtApplied 0x100 1 body1] [.esPacket 0x102]
+    2 0x110 0 bodyM movedPks 0x102 ⟨0x0f, 0x102, []⟩ moved_wf moved_cfn moved_distinct.1 moved_realises
+    moved_distinct.2
+    (by intro ev hm v b e; rw [List.mem_singleton] at hm; rw [hm] at e; cases e)
+    (by intro ev hm v es e; rw [List.mem_singleton] at hm; rw [hm] at e; cases e)
+    (by decide +kernel)
+  have e1 : specPcrPid bodyM = 0x102 := by decide +kernel
+  have e2 : specProgramDescBytes bodyM = [] := by decide +kernel
+  rw [e1, e2] at h2
+  rw [if_pos (by decide)] at h3
+  exact ⟨t, c, tag, tagp, sp, reg, by rw [runApp_one {} movedBytes movedPks moved_frame]; exact h1,
+    h2, h3, h4, h5⟩
+
+/-- the scope hypothesis is what fails on the shared-PID witnesses: program 2 IS announced with PMT PID
+0x100 by the PAT in force throughout `hSame`, yet conclusion 1 of `routed_by_latest_pmt_of_program`
+("every entry naming 0x100 is the entry of program 2") is false there -/
+example : pmtPidOf (currentOf hSame).pat 2 = some 0x100 ∧
+    ¬ (∀ e ∈ (currentOf hSame).pat, e.pid = 0x100 → e = .program 2 0x100) := by decide +kernel
+
+/-! ### SCOPE BOUNDARY (DESIGN 8.1b): next tables and multi-section tables
+
+`Transmits` / `RealisesEv` constrain `table_id`, `version_number`, the CRC and the packetisation of a
+section; they do NOT constrain `current_next_indicator`, `section_number` / `last_section_number` or
+`table_id_extension`.  Histories contain APPLIED versions only; what the code applies is shown here on two
+legal inputs. -/
+
+/-- **Scope boundary (NOT a known finding; DESIGN 8.1b): a NEXT table is applied at once.**  `cniNext` of
+`/tmp/pr/rev2d_cases.txt`: PAT {1 → 0x100}; PMT v0 {0x101}; a packet on 0x101; a PMT with
+`current_next_indicator = 0` (bit 0 of byte 5 of `secPmtNext`), version 1, listing 0x102 only; a packet
+on 0x101.  ISO/IEC 13818-1 says a next table "is not yet applicable"; the code (and the model,
+identically: Rust output `C:stream…258>3 C:bypid:257>4`) applies it like a current table: the stream
+request for 0x102 is made (tag 3), 0x101 is removed, and the following packet on 0x101 is offered as
+`ByPid(0x101)` (tag 4) and recorded at offset 752.  In the spec's vocabulary the bytes REALISE the
+history `hCni`, in which the next table is just `pmtApplied 0x100 1 bodyN`: the spec does not represent
+`current_next_indicator`. -/
+theorem next_table_applied_at_once :
+    (byteD secPmtNext 5 &&& 1 = 0 ∧ versionOf secPmtNext = 1 ∧ sectionBody secPmtNext = bodyN ∧
+      Demux.frame cniBytes 0 = .ok cniPks ∧ WF initRoute hCni ∧ Realises initRoute hCni cniPks) ∧
+    (∃ t c, runApp {} [cniBytes] = .ok (t, c) ∧
+      constructs c = [(.byPid 0, 0), (.pmt 0x100 1, 1), (.stream 0x100 0x1b 0x101 0x101 [] [], 2),
+        (.stream 0x100 0x1b 0x102 0x102 [] [], 3), (.byPid 0x101, 4)] ∧
+      pkts c = [(4, 752)] ∧
+      (∃ s, t.get 0x100 = some (.pmt 0x100 1 s [0x102])) ∧
+      t.get 0x101 = some (.recorder 4) ∧ (∃ f, t.get 0x102 = some (.pes 3 f))) := by
+  refine ⟨⟨by decide +kernel, by decide +kernel, by decide +kernel, cni_frame, cni_wf, cni_realises⟩, ?_⟩
+  obtain ⟨t, c, hr, hc, hp, -, hs⟩ := observeAt_some _ _ _ cni_run
+  simp only [List.map_cons, List.map_nil, List.cons.injEq, and_true] at hs
+  obtain ⟨-, h100, h101, h102⟩ := hs
+  exact ⟨t, c, hr, hc, hp, slot_pmt _ _ _ _ h100, slot_recorder _ _ h101, slot_pes _ _ h102⟩
+
+/-- **Scope boundary (NOT a known finding; DESIGN 8.1b): the second section of a two-section PAT is
+de-duplicated.**  `twoSectionPat` of `/tmp/pr/rev2d_cases.txt`: a PAT version 0 in two sections
+(`section_number` 0 of 1: program 1 → 0x100; `section_number` 1 of 1: program 2 → 0x110); PMT of program
+1 on 0x100; PMT of program 2 on 0x110; a packet on 0x201.  The de-duplication layer keys on
+`version_number` only, so section 1 is taken for a repetition of section 0 (in the spec's vocabulary the
+bytes REALISE `hTwoSec`, where it is `repetition 0`): program 2 never gets a PMT handler — the packet
+carrying its PMT is offered as `ByPid(0x110)` (tag 3, recorded at 564) and its elementary stream as
+`ByPid(0x201)` (tag 4, recorded at 752).  Rust output: `C:bypid:272>3 … C:bypid:513>4`.  The spec has no
+representation of multi-section tables: a `patApplied` event is ONE section. -/
+theorem second_section_deduplicated :
+    (byteD secPat2a 6 = 0 ∧ byteD secPat2a 7 = 1 ∧ byteD secPat2b 6 = 1 ∧ byteD secPat2b 7 = 1 ∧
+      versionOf secPat2a = 0 ∧ versionOf secPat2b = 0 ∧
+      specPat (sectionBody secPat2b) = [.program 2 0x110] ∧
+      Demux.frame twoSecBytes 0 = .ok twoSecPks ∧ WF initRoute hTwoSec ∧
+      Realises initRoute hTwoSec twoSecPks) ∧
+    (∃ t c, runApp {} [twoSecBytes] = .ok (t, c) ∧
+      constructs c = [(.byPid 0, 0), (.pmt 0x100 1, 1), (.stream 0x100 0x1b 0x101 0x101 [] [], 2),
+        (.byPid 0x110, 3), (.byPid 0x201, 4)] ∧
+      pkts c = [(3, 564), (4, 752)] ∧
+      (∃ s, t.get 0 = some (.pat s [0x100])) ∧
+      t.get 0x110 = some (.recorder 3) ∧ t.get 0x201 = some (.recorder 4)) := by
+  refine ⟨⟨by decide +kernel, by decide +kernel, by decide +kernel, by decide +kernel, by decide +kernel,
+    by decide +kernel, by decide +kernel, twoSec_frame, twoSec_wf, twoSec_realises⟩, ?_⟩
+  obtain ⟨t, c, hr, hc, hp, -, hs⟩ := observeAt_some _ _ _ twoSec_run
+  simp only [List.map_cons, List.map_nil, List.cons.injEq, and_true] at hs
+  obtain ⟨h0, -, h110, -, h201⟩ := hs
+  exact ⟨t, c, hr, hc, hp, slot_pat _ _ h0, slot_recorder _ _ h110, slot_recorder _ _ h201⟩
 
 end Ts.Props.C05History
